@@ -69,7 +69,7 @@ _whole.install(globals(), "C01",
                note="External contracts measured on every trace, not proved: np.random.uniform(lo,hi) in [lo,hi] (X1), CMA-ES 'bounds' (X2), scipy 'bounds' for L-BFGS-B (X3; the property quantifies over the L-BFGS-B local deme — scipy's Powell line search was measured to probe up to 16 ulps beyond a face, so other local methods are not generated here), qmc samples in [0,1) (X4). NaN genes (non-finite draws) are outside the domain. " + _whole.HIST_NOTE,
                technique="Coq theorems on Flocq binary64 operators (regenerated apply_bounds) + history-machine invariant over all event streams + vm_compute trace replay + box monitor on real runs",
                quick=200, thorough=5000, nontrivial=nontrivial, front_ends=["common", "ops"], machine_replay=False, hist_replay=True, extra_checks=[scaling, operators],
-               forces=[(3, {"cap_evals": 900, "local_method": "L-BFGS-B"}), (1, {"cap_evals": 900, "local_method": "L-BFGS-B", "objective_kind": "linear"}), (1, {"cap_evals": 900, "local_method": "L-BFGS-B", "height": 2, "engines": ["SEA", "Local"]}),
+               forces=[(3, {"cap_evals": 900, "local_method": "L-BFGS-B"}), (1, {"cap_evals": 900, "local_method": "L-BFGS-B", "objective_kind": "linear"}), (1, {"cap_evals": 900, "local_method": "l-bfgs-b", "height": 2, "engines": ["SEA", "Local"]}),
                        (1, {"cap_evals": 900, "local_method": "L-BFGS-B", "height": 2, "engines": ["GAStyleSEA", "CMA"]}),
                        (1, {"cap_evals": 700, "local_method": "L-BFGS-B", "height": 2, "dim": 5, "engines": ["SEA", "DE"], "levels_patch": [{}, {"sample_std": 8.0, "pop": 5}], "box_style": "sym"}),
                        (1, {"cap_evals": 900, "local_method": "L-BFGS-B", "height": 2, "wrappers": "cache", "box_style": "asym", "objective_kind": "linear", "engines": ["SEA", "CMA"]}),
